@@ -18,7 +18,7 @@ from vf import detloop, env, xs
 from vf.harness.resolve_harness import same, show
 
 COND = ("([UB1] U [1]) O [2]", "[1] U [2]", "[3][901]")
-AHB = ("Muss([UB1] U [1]) O [2]", "Muss [1] U [2]", "X [3][901] ")
+AHB = ("Muss([UB1] U [1]) O [2]", "Muss [1] U [2] Kann", "X [3][901] ")
 RESOLVE = (AHB[0], COND[0], COND[1])
 NS = 2  # strings per parser in use
 EDITS = 11  # 0 none; 1.. = (kind-1)*2 + depth : kinds replace child, delete child, append child, rebind data, rebind children
@@ -77,6 +77,8 @@ _SETUP = {}
 def setup():
     """install proxies; returns (parse_cond, parse_ahb) under test"""
     key = MAXSIZE
+    xs.REAL_LRU = True  # every lru_cache of the code under test really caches during this path ...
+    xs.clear_ahbicht_caches()  # ... and starts empty
     with xs.nt():
         env.install_parser_proxies()
         fc, fa = cep.parse_condition_expression_to_tree, aep.parse_ahb_expression_to_single_requirement_indicator_expressions
@@ -105,7 +107,7 @@ def apply_edit(tree, edit: int):
         sub = [c for c in tree.children if isinstance(c, Tree)]
         if not sub:
             return
-        node = sub[0]
+        node = sub[-1] if kind % 2 else sub[0]
     if kind == 0 and node.children:
         node.children[0] = Token("CONDITION_KEY", "666")
     elif kind == 1 and node.children:
@@ -127,6 +129,21 @@ def _step(fns, op, s, edit):
             detloop.run(parse_expression_including_unresolved_subexpressions(text))
         except Exception as e:  # pylint:disable=broad-except
             return f"resolving '{text}' raised {type(e).__name__}: {e}"
+        return None
+    if op == 3:
+        # a caller resolves WITHOUT any expansion and edits the returned tree deep inside the condition part
+        text = AHB[s]
+        try:
+            t = detloop.run(parse_expression_including_unresolved_subexpressions(text, resolve_packages=False, replace_time_conditions=False))
+        except Exception as e:  # pylint:disable=broad-except
+            return f"resolving '{text}' raised {type(e).__name__}: {e}"
+        node = t
+        for _ in range(2):
+            subs = [c for c in node.children if isinstance(c, Tree)]
+            if not subs:
+                break
+            node = subs[0]
+        apply_edit(node, edit if edit % 2 == 1 else max(edit - 1, 0))
         return None
     text = (COND, AHB)[op][s]
     which = "condition" if op == 0 else "ahb"
@@ -153,9 +170,9 @@ def history(o1: int, s1: int, e1: int, o2: int, s2: int, e2: int, o3: int, s3: i
     pre: len(FIX) < 3 or o2 == FIX[2]
     pre: len(FIX) < 4 or s2 == FIX[3]
     pre: len(FIX) < 5 or o3 == FIX[4]
-    pre: 0 <= o1 < 3 and 0 <= s1 < NS and 0 <= e1 < len(EDIT_SET)
-    pre: 0 <= o2 < 3 and 0 <= s2 < NS and 0 <= e2 < len(EDIT_SET)
-    pre: 0 <= o3 < 3 and 0 <= s3 < NS and 0 <= e3 < len(EDIT_SET)
+    pre: 0 <= o1 < 4 and 0 <= s1 < NS and 0 <= e1 < len(EDIT_SET)
+    pre: 0 <= o2 < 4 and 0 <= s2 < NS and 0 <= e2 < len(EDIT_SET)
+    pre: 0 <= o3 < 4 and 0 <= s3 < NS and 0 <= e3 < len(EDIT_SET)
     pre: 0 <= of < 2 and 0 <= sf < NS
     post: _
     """
@@ -163,7 +180,7 @@ def history(o1: int, s1: int, e1: int, o2: int, s2: int, e2: int, o3: int, s3: i
     steps = [(o1, s1, e1), (o2, s2, e2), (o3, s3, e3)][:STEPS]
     conc = []
     for o, s, e in steps:
-        o, s = xs.pick(o, 0, 3), xs.pick(s, 0, NS)
+        o, s = xs.pick(o, 0, 4), xs.pick(s, 0, NS)
         conc.append((o, s, EDIT_SET[xs.pick(e, 0, len(EDIT_SET))]))
     of, sf = xs.pick(of, 0, 2), xs.pick(sf, 0, NS)
     desc = dict(o1=o1, s1=s1, e1=e1, o2=o2, s2=s2, e2=e2, o3=o3, s3=s3, e3=e3, of=of, sf=sf)
@@ -172,7 +189,7 @@ def history(o1: int, s1: int, e1: int, o2: int, s2: int, e2: int, o3: int, s3: i
         if o == 2 and e != 0:
             return True  # resolve steps carry no edit
         bad = _step(fns, o, s, e)
-        trail.append((("parse-condition", "parse-ahb", "resolve")[o], s, e))
+        trail.append((("parse-condition", "parse-ahb", "resolve", "resolve-without-expansion+deep-edit")[o], s, e))
         if bad:
             xs.reached()
             return xs.fail(f"history {trail}: {bad}", **desc)
